@@ -59,5 +59,233 @@ Proof.
     + split; [reflexivity|eauto].
     + exact Hu.
 Qed.
+
+(** ** Serializability: every schedule is equivalent to running the sessions one after the other
+    in the order in which they acquired the lock. *)
+Notation sop := (sop H).
+Notation session := (session D H load store). Notation session_from := (session_from D H store).
+
+(** ghost state: the programs of the sessions in acquisition order *)
+Definition step_acq (s : sys) (acq : list (list sop)) (t : nat) : option (sys * list (list sop)) :=
+  match step s t with
+  | None => None
+  | Some s' => match nth_error (threads D H s) t with
+               | Some (Idle _ prog) => Some (s', acq ++ [prog])
+               | _ => Some (s', acq)
+               end
+  end.
+Fixpoint run_acq (s : sys) (acq : list (list sop)) (sched : list nat) : sys * list (list sop) :=
+  match sched with
+  | [] => (s, acq)
+  | t :: r => match step_acq s acq t with Some (s', acq') => run_acq s' acq' r | None => run_acq s acq r end
+  end.
+
+Lemma run_acq_fst : forall sched s acq, fst (run_acq s acq sched) = run s sched.
+Proof.
+  induction sched as [|t r IH]; intros s acq; [reflexivity|]. cbn [run_acq Lock.run].
+  unfold step_acq. destruct (step s t) as [s'|]; [|apply IH].
+  destruct (nth_error (threads D H s) t) as [[prog|h rest|ok]|]; apply IH.
+Qed.
+
+(** what the disk will be once the current holder (if any) has finished its session *)
+Definition pending (s : sys) : D :=
+  match lock D H s with
+  | Some t => match nth_error (threads D H s) t with
+              | Some (Holding _ h rest) => session_from h rest (disk D H s)
+              | _ => disk D H s
+              end
+  | None => disk D H s
+  end.
+
+Definition sessions_of (acq : list (list sop)) (d0 : D) : D := fold_left (fun d prog => session prog d) acq d0.
+
+Lemma sessions_of_app acq prog d0 : sessions_of (acq ++ [prog]) d0 = session prog (sessions_of acq d0).
+Proof. unfold sessions_of. rewrite fold_left_app. reflexivity. Qed.
+
+Theorem step_acq_pending (s s' : sys) acq acq' t d0 :
+  excl D H s -> pending s = sessions_of acq d0 -> step_acq s acq t = Some (s', acq') ->
+  pending s' = sessions_of acq' d0.
+Proof.
+  unfold step_acq, Lock.step. intros Hex Hp Hs.
+  destruct (nth_error (threads D H s) t) as [st|] eqn:Et; [|discriminate].
+  assert (Htl : t < length (threads D H s)) by (apply nth_error_Some; congruence).
+  destruct st as [prog|h rest|ok]; [| |discriminate].
+  - destruct (lock D H s) as [o|] eqn:El; [discriminate|].
+    assert (Hpd : pending s = disk D H s) by (unfold pending; rewrite El; reflexivity).
+    destruct (load (disk D H s)) as [h|] eqn:Eload; injection Hs as <- <-; rewrite sessions_of_app, <- Hp, Hpd.
+    + unfold pending. cbn [lock threads disk]. rewrite nth_set_thread_same by assumption.
+      unfold Lock.session. rewrite Eload. reflexivity.
+    + unfold pending. cbn [lock disk]. unfold Lock.session. rewrite Eload. reflexivity.
+  - assert (Hown : lock D H s = Some t) by (apply Hex; eauto).
+    assert (Hpd : pending s = session_from h rest (disk D H s)) by (unfold pending; rewrite Hown, Et; reflexivity).
+    destruct rest as [|[g|] rest']; injection Hs as <- <-; rewrite <- Hp, Hpd.
+    + unfold pending. cbn [lock disk]. reflexivity.
+    + unfold pending. cbn [lock threads disk]. rewrite Hown. rewrite nth_set_thread_same by assumption. reflexivity.
+    + unfold pending. cbn [lock threads disk]. rewrite Hown. rewrite nth_set_thread_same by assumption. reflexivity.
+Qed.
+
+Lemma step_acq_excl (s s' : sys) acq acq' t : excl D H s -> step_acq s acq t = Some (s', acq') -> excl D H s'.
+Proof.
+  unfold step_acq. intros Hex Hs. destruct (step s t) as [s1|] eqn:E; [|discriminate].
+  assert (s1 = s') by (destruct (nth_error (threads D H s) t) as [[?|? ?|?]|]; injection Hs; congruence).
+  subst. eapply step_excl; eassumption.
+Qed.
+
+(** for every schedule: the disk the current holder will leave is the sequential composition, in
+    acquisition order, of the sessions that got the lock *)
+Theorem run_serializable : forall sched (s : sys) acq d0,
+  excl D H s -> pending s = sessions_of acq d0 ->
+  let '(s', acq') := run_acq s acq sched in
+  excl D H s' /\ pending s' = sessions_of acq' d0.
+Proof.
+  induction sched as [|t r IH]; intros s acq d0 Hex Hp; cbn [run_acq]; [split; assumption|].
+  destruct (step_acq s acq t) as [[s1 acq1]|] eqn:E; [|apply IH; assumption].
+  apply IH; [eapply step_acq_excl; eassumption|eapply step_acq_pending; eassumption].
+Qed.
+
+(** once nobody holds the lock the disk itself is that composition *)
+Corollary run_serializable_idle sched (s : sys) d0 :
+  excl D H s -> lock D H s = None -> disk D H s = d0 ->
+  let '(s', acq') := run_acq s [] sched in
+  lock D H s' = None -> disk D H s' = sessions_of acq' d0.
+Proof.
+  intros Hex Hl Hd.
+  pose proof (run_serializable sched s [] d0 Hex) as Hrun.
+  assert (Hp : pending s = sessions_of [] d0) by (unfold pending; rewrite Hl; exact Hd).
+  specialize (Hrun Hp). destruct (run_acq s [] sched) as [s' acq']. destruct Hrun as [_ Hp'].
+  intros Hl'. unfold pending in Hp'. rewrite Hl' in Hp'. exact Hp'.
+Qed.
+
+(** a failed Open leaves the lock free (the repaired code closes the descriptor on every error path) *)
+Theorem failed_open_releases (s s' : sys) t prog :
+  nth_error (threads D H s) t = Some (Idle _ prog) -> lock D H s = None -> load (disk D H s) = None ->
+  step s t = Some s' -> lock D H s' = None /\ disk D H s' = disk D H s.
+Proof.
+  unfold Lock.step. intros Et El Eload Hs. rewrite Et, El, Eload in Hs. injection Hs as <-. split; reflexivity.
+Qed.
+
+(** the session programs recorded in [acq] are programs of threads *)
+Definition idle_progs_sat (P : list sop -> Prop) (s : sys) : Prop :=
+  forall t prog, nth_error (threads D H s) t = Some (Idle _ prog) -> P prog.
+
+Lemma step_idle_progs P (s s' : sys) t : idle_progs_sat P s -> step s t = Some s' -> idle_progs_sat P s'.
+Proof.
+  unfold idle_progs_sat, Lock.step. intros Hq Hs u prog Hu.
+  destruct (nth_error (threads D H s) t) as [st|] eqn:Et; [|discriminate].
+  assert (Htl : t < length (threads D H s)) by (apply nth_error_Some; congruence).
+  assert (Hne : u <> t -> nth_error (threads D H s) u = Some (Idle _ prog) -> P prog) by (intros _ E; eapply Hq; exact E).
+  destruct st as [pr|h rest|ok]; [| |discriminate].
+  - destruct (lock D H s); [discriminate|].
+    destruct (load (disk D H s)); injection Hs as <-; cbn [threads] in Hu;
+      (destruct (Nat.eq_dec u t) as [->|Hd];
+       [rewrite nth_set_thread_same in Hu by assumption; discriminate
+       |rewrite nth_set_thread_other in Hu by assumption; eapply Hq; exact Hu]).
+  - destruct rest as [|[g|] rest']; injection Hs as <-; cbn [threads] in Hu;
+      (destruct (Nat.eq_dec u t) as [->|Hd];
+       [rewrite nth_set_thread_same in Hu by assumption; discriminate
+       |rewrite nth_set_thread_other in Hu by assumption; eapply Hq; exact Hu]).
+Qed.
+
+Theorem run_acq_progs P : forall sched (s : sys) acq,
+  idle_progs_sat P s -> Forall P acq -> Forall P (snd (run_acq s acq sched)).
+Proof.
+  induction sched as [|t r IH]; intros s acq Hq Ha; cbn [run_acq]; [exact Ha|].
+  unfold step_acq. destruct (step s t) as [s1|] eqn:E; [|apply IH; assumption].
+  pose proof (step_idle_progs P s s1 t Hq E) as Hq1.
+  destruct (nth_error (threads D H s) t) as [[prog|h rest|ok]|] eqn:Et; try (apply IH; assumption).
+  apply IH; [exact Hq1|]. apply Forall_app. split; [exact Ha|]. constructor; [|constructor]. eapply Hq. exact Et.
+Qed.
+
 End LockProofs.
 Print Assumptions step_excl.
+Print Assumptions run_serializable.
+
+
+(** ** Counting: every thread that left [Idle] appears exactly once in the acquisition order *)
+Section Count.
+Variables D H : Type.
+Variable load : D -> option H.
+Variable store : H -> D -> D.
+Notation sys := (sys D H). Notation tstate := (tstate H).
+
+Definition is_idle (s : tstate) : bool := match s with Idle _ _ => true | _ => false end.
+Definition idle_count (ts : list tstate) : nat := length (filter is_idle ts).
+Definition b2n (b : bool) : nat := if b then 1 else 0.
+
+Lemma set_thread_idle_count (ts : list tstate) t old new :
+  nth_error ts t = Some old ->
+  idle_count (set_thread H ts t new) + b2n (is_idle old) = idle_count ts + b2n (is_idle new).
+Proof.
+  intros Hn. unfold idle_count, set_thread.
+  assert (Hsplit : ts = firstn t ts ++ old :: skipn (S t) ts).
+  { revert ts Hn. induction t as [|t IH]; intros [|x r] Hn; try discriminate.
+    - injection Hn as ->. reflexivity.
+    - cbn [firstn skipn app]. f_equal. apply IH. exact Hn. }
+  rewrite Hsplit at 3. rewrite !filter_app. cbn [filter]. rewrite !app_length.
+  destruct (is_idle old), (is_idle new); cbn [length b2n]; lia.
+Qed.
+
+Theorem step_acq_count (s s' : sys) acq acq' t :
+  step_acq D H load store s acq t = Some (s', acq') ->
+  length acq' + idle_count (threads D H s') = length acq + idle_count (threads D H s).
+Proof.
+  unfold step_acq, Lock.step. intros Hs.
+  destruct (nth_error (threads D H s) t) as [st|] eqn:Et; [|discriminate].
+  destruct st as [prog|h rest|ok]; [| |discriminate].
+  - destruct (lock D H s); [discriminate|].
+    destruct (load (disk D H s)); injection Hs as <- <-; cbn [threads]; rewrite app_length; cbn [length];
+      match goal with |- context[set_thread H ?ts t ?new] =>
+        pose proof (set_thread_idle_count ts t _ new Et) as Hc end; cbn [is_idle b2n] in Hc; lia.
+  - destruct rest as [|[g|] rest']; injection Hs as <- <-; cbn [threads];
+      match goal with |- context[set_thread H ?ts t ?new] =>
+        pose proof (set_thread_idle_count ts t _ new Et) as Hc end; cbn [is_idle b2n] in Hc; lia.
+Qed.
+
+Theorem run_acq_count : forall sched (s : sys) acq,
+  length (snd (run_acq D H load store s acq sched)) + idle_count (threads D H (fst (run_acq D H load store s acq sched)))
+  = length acq + idle_count (threads D H s).
+Proof.
+  induction sched as [|t r IH]; intros s acq; cbn [run_acq]; [reflexivity|].
+  destruct (step_acq D H load store s acq t) as [[s1 acq1]|] eqn:E; [|apply IH].
+  rewrite IH. eapply step_acq_count. exact E.
+Qed.
+End Count.
+
+(** ** No lost update: n concurrent add-one sessions on one file leave n, whatever the schedule *)
+Lemma counter_sessions_sum : forall acq d0, Forall (fun p => p = counter_session) acq ->
+  sessions_of Z Z counter_load counter_store acq d0 = (d0 + Z.of_nat (length acq))%Z.
+Proof.
+  induction acq as [|p r IH]; intros d0 Hall; [cbn; lia|].
+  inversion Hall as [|? ? Hp Hr]; subst. unfold sessions_of in *. cbn [fold_left length].
+  rewrite IH by exact Hr. unfold Lock.session, counter_load, counter_session, counter_store. cbn. lia.
+Qed.
+
+Lemma excl_initial {D H} d0 (ts : list (tstate H)) :
+  (forall t h rest, nth_error ts t <> Some (Holding H h rest)) -> excl D H (mkSys D H d0 None ts).
+Proof.
+  intros Hno t. cbn. split; [intros (h & rest & E); exfalso; eapply Hno; exact E|discriminate].
+Qed.
+
+Theorem counter_no_lost_update n sched :
+  let s' := run Z Z counter_load counter_store (mkSys Z Z 0%Z None (repeat (Idle Z counter_session) n)) sched in
+  idle_count Z (threads Z Z s') = 0 -> lock Z Z s' = None -> disk Z Z s' = Z.of_nat n.
+Proof.
+  set (s0 := mkSys Z Z 0%Z None (repeat (Idle Z counter_session) n)). intros s' Hidle Hlock.
+  assert (Hex : excl Z Z s0).
+  { apply excl_initial. intros t h rest E. apply nth_error_In in E. apply repeat_spec in E. discriminate. }
+  pose proof (run_serializable_idle Z Z counter_load counter_store sched s0 0%Z Hex eq_refl eq_refl) as Hser.
+  pose proof (run_acq_count Z Z counter_load counter_store sched s0 []) as Hcnt.
+  pose proof (run_acq_progs Z Z counter_load counter_store (fun p => p = counter_session) sched s0 []) as Hprogs.
+  pose proof (run_acq_fst Z Z counter_load counter_store sched s0 []) as Hfst.
+  destruct (run_acq Z Z counter_load counter_store s0 [] sched) as [s1 acq] eqn:E. cbn [fst snd] in *.
+  subst s1. fold s' in Hser, Hcnt.
+  rewrite (Hser Hlock). rewrite counter_sessions_sum.
+  - rewrite Hidle in Hcnt. cbn [length] in Hcnt.
+    assert (Hi0 : idle_count Z (threads Z Z s0) = n).
+    { unfold s0, idle_count. cbn [threads]. clear. induction n as [|k IH]; [reflexivity|]. cbn. rewrite IH. reflexivity. }
+    rewrite Hi0 in Hcnt. f_equal. lia.
+  - apply Hprogs; [|constructor].
+    intros t prog Et. unfold s0 in Et. cbn [threads] in Et. apply nth_error_In in Et. apply repeat_spec in Et.
+    injection Et as <-. reflexivity.
+Qed.
+Print Assumptions counter_no_lost_update.
